@@ -389,7 +389,7 @@ class ProxySuite(Suite):
                     break
                 timed = (step[0] == "rut") or (step[0] in ("rup", "expect", "read") and step[2] is not None)
                 # a timed read may return before the rest of the program's output and the prompt have arrived
-                foreign = step[0] == "expect" and all(x != {"lit": OWN.hex()} for x in step[1])
+                foreign = (step[0] == "expect" and all(x != {"lit": OWN.hex()} for x in step[1])) or (step[0] == "read" and step[1] == -1)
                 arrived = (not (timed or foreign)) or (TBOT_PROMPT in bytes.fromhex(ch))
                 if dead and arrived and step[0] in ("rup", "rut", "expect", "read") and r != [10]:
                     fails.append(f"the program had ended, but {step!r} gave {r!r} instead of raising CommandEndedException")
@@ -459,8 +459,10 @@ class ProxySuite(Suite):
                 # read to the program's prompt before every line sent (with read-back); nothing is sent after the exit line
                 if early:
                     x = rng.random()
-                    if x < 0.5:
+                    if x < 0.4:
                         script.append(rng.choice([["rup", own, None], ["expect", [own], None], ["rup", own, 4096]]))
+                    elif x < 0.5:
+                        script.append(["read", -1, None])       # plain read(): whatever is there, scanned like any other read
                     elif x < 0.75:
                         # waiting for something the program prints before it exits: whether the match or the shell prompt
                         # ends the wait depends on the fragmentation (both in one piece: the command has ended)
